@@ -76,3 +76,15 @@ TIE_ASSUMPTION = "translator vocabulary (Relay/Base/GoLite.lean): int64 as unbou
 TIE_HUB_ASSUMPTION = ("hub translation vocabulary: a *Client is its field values plus an identity (addr__); whether a non-blocking send goes through is the "
                       "environment's choice (w.ready), tied to the model queue's hasRoom by hypothesis `hag` of sim_broadcast; the select in Hub.run takes one "
                       "case at a time (Go semantics of a single goroutine); h.dcs is non-nil (set by SetDenyChannelStore before run starts)")
+
+# the plain (lossy) hub of the host tools, internal/hub: Run / RunWithStats translated on every run (Relay/Extracted/GenHub.lean)
+TIE_PLAINHUB = [(f"TiePlainHub.{n}", "Relay.Tie.PlainHub") for n in
+                ["stats_variant_same_data", "register_filed", "register_wf", "unregister_filed", "unregister_wf", "unregister_idempotent", "broadcast_out",
+                 "broadcast_only_same_topic_not_self", "broadcast_reaches_every_ready_target", "broadcast_at_most_once", "broadcast_drops_exactly_the_not_ready",
+                 "broadcast_no_eviction", "reachable_wf", "e2e_inv", "e2e_queue_bounded", "e2e_isolation_no_echo", "e2e_in_order_no_duplication_chan",
+                 "e2e_in_order_no_duplication", "e2e_lossless_when_ready", "e2e_lossless_big_caps", "coverage"]]
+TIE_PLAINHUB_NOTE = ("PLAIN HUB TRANSLATION: the cases of internal/hub's Run and RunWithStats (the fan-out under the host's feeds, streams and control topic) are translated to "
+                     "Lean on every run (statistics statements skipped as not-data; proved: the two variants are the same function) and proved, for every iteration order and "
+                     "every choice of ready subscribers, to send a message at most once to exactly the other subscribers of the sender's topic that are ready, to evict nobody and "
+                     "close nothing; over every history with bounded queues: what a subscriber is sent is a SUBLIST of the messages broadcast (lossy, but never reordered or "
+                     "duplicated), and exactly the wanted messages when queues have room (Relay/Tie/PlainHub.lean). ")
